@@ -33,6 +33,10 @@ class Module:
         except SyntaxError as e:  # pragma: no cover
             raise AnalysisError("cannot parse %s: %s" % (rel, e))
         self.name = rel[:-3].replace("/", ".")
+        self.renamed_locals = 0
+        if not os.environ.get("ISOQLINT_NO_ALPHA"):
+            from . import alpha
+            self.renamed_locals = alpha.normalise_module(self.tree, rel)
         # parent links and qualified names
         self.functions = {}   # qualname -> FunctionDef
         self.classes = {}     # qualname -> ClassDef
